@@ -291,7 +291,7 @@ public:
                this->the_first = list.last()->next();
          }
          else if(last() == list.last())
-            this->the_last = list.last()->prev();
+            this->the_last = list.first()->prev();
          else
          {
             T* after = first();
@@ -302,7 +302,10 @@ public:
             if(last() == list.last())
                this->the_last = after;
             else
+            {
                after->next() = list.last()->next();
+               after->next()->prev() = after;
+            }
          }
       }
    }
